@@ -200,3 +200,10 @@ def multi_no_hidden_commit(si: int) -> bool:
     post: _
     """
     return done(fast.native(_multi_is_only_listed, fast.pick(si, len(MULTI))))
+
+
+# ------------------------------------------------------------------ patch() closes the instance's database files on every exit path (shared with C20)
+import obligations.C20  # noqa: E402,F401
+from vf.registry import alias  # noqa: E402
+
+alias("C18.patch_closes_the_instance_on_every_exit", "C20.patch_restores_everything", "the instance connection (hence every attached database file) is closed on normal exit, on an exception in the body and on a set-up failure, so a later patch() on the same db_path starts from the committed state")
